@@ -11,12 +11,16 @@
       in WW/Proofs/Pair.lean (section at the end of this file).  The pair theorems are stated for an
       ARBITRARY `Curve` (swap computation + LP mint rule), so they cover the constant-product and the
       two-asset stableswap pair alike: the ledger code in `commands.rs` is shared by both.
+    * the fee collector's `CollectFees` — the message that TRIGGERS the collections of pairs and vaults —
+      model WW/Model/{Collector,Feeflow}.lean (engine `feeflow`, also with coins attached to the message):
+      last section of this file; the theorems are those of WW/Props/C10.lean.
 -/
 import WW.Proofs.Trio
 import WW.Proofs.VaultLedger
 import WW.Props.C05
 import WW.Proofs.Pair
 import WW.Props.C01
+import WW.Props.C10
 namespace WW.C07
 open WW
 
@@ -223,5 +227,30 @@ example :
        .swap 2 1 50000 (some 500000000000000000) 2, .withdraw 0 1000000]
     s.x1.chg = 9999 ∧ s.x1.sent = 9999 ∧ s.x1.col = 9999 ∧ s.x1.pend = 0 ∧ s.x1.brn = 999 ∧
     s.x0.chg = 500 ∧ s.x0.pend = 500 ∧ s.x0.sent = 0 ∧ s.lpPair = 2000 ∧ s.sup = 199000000 := by decide +kernel
+
+/-! ## the fee collector's `CollectFees` (engine `feeflow`): what the collections are triggered by -/
+
+/-- a `CollectFees` sent to the collector by anybody moves, per asset, exactly the collectable pending fees of
+    the named pairs / vaults into the collector (collector + pending conserved) and touches nothing else -/
+theorem collector_collect_exact (s s' : Collector.St) (sender : Nat) (f : Collector.FeesFor)
+    (h : Collector.collectFees s sender f = .ok s') :
+    (∀ i, s'.bal i = s.bal i + Collector.directCollected s f i) ∧
+    (∀ i, s'.bal i + Collector.vaultsPending i s'.vaults + Collector.poolsPending i s'.pools =
+          s.bal i + Collector.vaultsPending i s.vaults + Collector.poolsPending i s.pools) :=
+  ⟨(WW.C10.direct_collect_exact s s' sender f h).1, (WW.C10.direct_collect_exact s s' sender f h).2.1⟩
+
+/-- **coins attached to a collection never reach a pair or a vault and never change what is collected**: the
+    pending ledgers after `CollectFees` with `x` of ANY asset `a` attached are those of the plain collection
+    from the same state, the collector ends up with balance before + collected + attached, and the
+    distributor, the DAO and every other contract balance of the model are untouched -/
+theorem collector_collect_ignores_attached_coins (cfg : Feeflow.Cfg) (s s' : Feeflow.St) (payer a x sender : Nat)
+    (f : Collector.FeesFor) (h : Feeflow.step cfg s (.coins payer a x (.collect sender f)) = .ok s') :
+    ∃ c0, Collector.collectFees s.c sender f = .ok c0 ∧
+      s'.c.pools = c0.pools ∧ s'.c.vaults = c0.vaults ∧
+      (∀ i, s'.c.bal i = s.c.bal i + Collector.directCollected s.c f i + (if a = i then x else 0)) ∧
+      s'.d = s.d ∧ s'.daoBal = s.daoBal ∧ s'.xb = s.xb := by
+  obtain ⟨c0, h0, hp, hv, _, hb, _, hd, hdao, _, hxb, _⟩ :=
+    WW.C10.stray_coins_stay_on_collector cfg s s' payer a x sender f h
+  exact ⟨c0, h0, hp, hv, hb, hd, hdao, hxb⟩
 
 end WW.C07
